@@ -55,6 +55,9 @@ type c24Group struct {
 	mustReject bool // sum(fees) < requirement of the top-level group
 	wcOK       bool // requirement met even if every inner group rounded up on its own and defaulted fees paid nothing
 	hasInner   bool
+	hasDefault bool     // some inner payment leaves its fee to the default
+	reqAll     *big.Int // ceil(MinTxnFee * usage of the top-level group and all inner transactions)
+	aggReject  bool     // mustReject only because of the aggregate requirement
 	err        error
 }
 
@@ -164,7 +167,7 @@ func (g *c24Gen) member(t *rapid.T, i int) *c24Member {
 		args := [][]byte{[]byte(mode)}
 		for j := 0; j < k; j++ {
 			in := c24Inner{HasFee: rapid.IntRange(0, 9).Draw(t, "hasfee") < 7}
-			if sized && rapid.IntRange(0, 2).Draw(t, "innernote") == 0 {
+			if sized && rapid.Bool().Draw(t, "innernote") {
 				in.NoteLen = c24Around(t, "inote", p.MaxTxnNoteBytes, 0, p.MaxAbsoluteTxnNoteBytes)
 			} else {
 				in.NoteLen = rapid.SampledFrom([]int{0, 0, 8, 100}).Draw(t, "inoteS")
@@ -334,6 +337,23 @@ func (g *c24Gen) group(t *rapid.T) *c24Group {
 			}
 		}
 	}
+	// aggregate view: one round-up over the whole tree, explicit inner fees counted, defaulted ones as zero
+	usageAll, innerExplicit := new(big.Int).Set(grp.usageTop), new(big.Int)
+	for _, m := range grp.Members {
+		for _, in := range m.Inner {
+			usageAll.Add(usageAll, c24InnerUsage(p, in.NoteLen))
+			if in.HasFee {
+				innerExplicit.Add(innerExplicit, c24B(in.Fee))
+			} else {
+				grp.hasDefault = true
+			}
+		}
+	}
+	grp.reqAll = c24CeilFee(p, usageAll)
+	agg := uint64(0)
+	if d := new(big.Int).Sub(grp.reqAll, innerExplicit); d.Sign() > 0 {
+		agg = d.Uint64()
+	}
 	req := grp.reqTop.Uint64()
 	in := innerNeed.Uint64()
 	var total uint64
@@ -348,6 +368,7 @@ func (g *c24Gen) group(t *rapid.T) *c24Group {
 		}
 		opts := []uint64{sub(req, 1), sub(req, 1), req, req, req, req + 1, sub(req+in, 1), req + in, req + in, req + in + 1,
 			0, 2 * req, sub(req, p.MinTxnFee), sub(req, 2), req + in + rapid.Uint64Range(0, 3000).Draw(t, "slack"),
+			sub(agg, 1), agg, agg, agg + 1, req + in, req + in, req + in + 1, req + in + 2,
 			rapid.Uint64Range(0, req+in+1).Draw(t, "anyTotal")}
 		total = rapid.SampledFrom(opts).Draw(t, "total")
 	}
@@ -381,6 +402,12 @@ func (g *c24Gen) group(t *rapid.T) *c24Group {
 		grp.paidTop.Add(grp.paidTop, c24B(f))
 	}
 	grp.mustReject = grp.paidTop.Cmp(grp.reqTop) < 0
+	if !grp.mustReject && grp.hasInner && !grp.hasDefault {
+		// every inner fee is explicit: the aggregate requirement over the whole tree is known up front
+		if all := new(big.Int).Add(grp.paidTop, innerExplicit); all.Cmp(grp.reqAll) < 0 {
+			grp.mustReject, grp.aggReject = true, true
+		}
+	}
 	if !grp.mustReject {
 		credit := new(big.Int).Sub(grp.paidTop, grp.reqTop)
 		grp.wcOK = true
@@ -431,6 +458,8 @@ func (g *c24Gen) offer(t *rapid.T, ev *eval.BlockEvaluator, grp *c24Group) {
 	grp.err = ev.TransactionGroup(transactions.WrapSignedTxnsWithAD(cp)...)
 	region := "ambiguous"
 	switch {
+	case grp.aggReject:
+		region = "must-reject-aggregate"
 	case grp.mustReject:
 		region = "must-reject"
 	case grp.wcOK:
@@ -442,9 +471,16 @@ func (g *c24Gen) offer(t *rapid.T, ev *eval.BlockEvaluator, grp *c24Group) {
 	for _, m := range grp.Members {
 		vk.Label("kind:" + m.Kind)
 	}
+	if cls == "other" && vkEnv("VERIF_C24_DEBUG", "") != "" {
+		msg := grp.err.Error()
+		if len(msg) > 160 {
+			msg = msg[len(msg)-160:]
+		}
+		vk.Label("other: " + msg)
+	}
 	if grp.mustReject && grp.err == nil {
-		t.Fatalf("C24 VIOLATION: group accepted although its fees %s are below the requirement %s (usage %s micro-fees, MinTxnFee %d)\n%s",
-			grp.paidTop, grp.reqTop, grp.usageTop, g.w.proto.MinTxnFee, grp.render())
+		t.Fatalf("C24 VIOLATION: group accepted although its fees %s are below the requirement %s (usage %s micro-fees, MinTxnFee %d; whole tree incl. inner transactions: %s)\n%s",
+			grp.paidTop, grp.reqTop, grp.usageTop, g.w.proto.MinTxnFee, grp.reqAll, grp.render())
 	}
 	if grp.wcOK && c24IsFeeError(grp.err) {
 		t.Fatalf("C24 VIOLATION: group refused for its fees although they cover the requirement %s (paid %s) and every inner group: %v\n%s",
